@@ -10,7 +10,7 @@ RULE = ("Compositions are generated as letter->count tables satisfying premise 1
         "(>= 1/4 of residues from DEFHIKLMPQRSVWY, the rest from all 26 letters; lower-case rates drawn independently for the protein-only letters and the rest: 0, 2 %, 50 %, 98 %, 100 %), including exact-boundary "
         "tables (protein-only fraction exactly 1/4 with the remainder on one letter), then laid out as 2..40 sequences in "
         "a drawn order with drawn names; observed through kalign_arr_to_msa (array) and the FASTA/MSF/Clustal readers, "
-        "also as gapped presentations (up to 95% gap characters). Oracle: reported biotype == expected kind, and equal "
+        "also as gapped presentations (up to 95% gap characters); a quarter of the cases are observed after 1..3 earlier calls (array or file input of either kind, up to 18000 residues) in the same process. Oracle: reported biotype == expected kind, and equal "
         "after permuting and renaming the sequences; for inputs of <= 300 residues the run must accept the alignment type of the expected kind and reject the other. extra(): boundary compositions enumerated exhaustively for all "
         "(protein-only letter, filler letter) pairs. Non-trivial = >= 2 distinct letters; distinct by composition+layout hash.")
 ASSUMPTIONS = ["compositions satisfying neither premise are not judged",
@@ -82,8 +82,17 @@ def cases(draw, tier):
     perm_seed = draw(st.integers(0, 2 ** 16))
     names = draw(gen.names_for(len(seqs), long_names=False))
     names2 = draw(gen.names_for(len(seqs), long_names=False))
+    # earlier calls in the same process (array or file input of either kind, possibly much larger): the decision is about
+    # the input at hand only
+    history = []
+    if draw(st.integers(0, 3)) == 0:
+        for _ in range(draw(st.integers(1, 3))):
+            hk = draw(st.sampled_from(["dna", "protein"]))
+            hs = gen.expand_random(draw(st.integers(0, 2 ** 32 - 1)), gen.NUC if hk == "dna" else "DEFHIKLMPQRSVWY" + gen.AA,
+                                   draw(st.integers(2, 6)), 5, draw(st.sampled_from([20, 200, 3000])))
+            history.append({"via": draw(st.sampled_from(["arr", "arr", "fasta"])), "seqs": hs})
     return {"seqs": seqs, "via": via, "gapfrac": gapfrac, "perm_seed": perm_seed, "names": names, "names2": names2,
-            "gap_seed": draw(st.integers(0, 2 ** 16))}
+            "gap_seed": draw(st.integers(0, 2 ** 16)), "history": history}
 
 
 def strategy(tier):
@@ -106,10 +115,32 @@ def gapped_rows(seqs, frac, seed):
     return rows
 
 
-def observe(seqs, names, via, gapfrac, gap_seed):
-    if via == "arr":
-        return kal.biotype_of(seqs)
+def history_steps(history):
+    """probe lines that read (and free) the earlier inputs in slot 1"""
     wd = runner.workdir()
+    lines = []
+    for h in history or []:
+        if h["via"] == "arr":
+            lines += ["arr2msa 1 %s" % wd.write(runner.seqset_bytes(h["seqs"]), ".seqs"), "free 1"]
+        else:
+            text = formats.write_fasta(["h%d" % i for i in range(len(h["seqs"]))], h["seqs"], width=60)
+            lines += ["read 1 1 %s" % wd.write(text.encode("latin-1"), ".in"), "free 1"]
+    return lines
+
+
+def observe(seqs, names, via, gapfrac, gap_seed, history=None):
+    pre = history_steps(history)
+    wd = runner.workdir()
+    if via == "arr":
+        if not pre:
+            return kal.biotype_of(seqs)
+        sp = wd.write(runner.seqset_bytes(seqs), ".seqs")
+        pr = runner.run_probe(pre + ["arr2msa 0 %s" % sp, "dump 0", "free 0"])
+        if pr.ended.bad or pr.ended.rc != 0 or not pr.steps or len(pr.steps) < len(pre) + 2:
+            raise kal.Failure(pr.ended, "kalign_arr_to_msa after earlier calls")
+        if pr.steps[len(pre)]["rc"] != 0 or pr.steps[len(pre) + 1].get("msa") is None:
+            raise kal.Rejected("kalign_arr_to_msa failed")
+        return pr.steps[len(pre) + 1]["msa"]["biotype"]
     if via == "fasta":
         text = formats.write_fasta(names, seqs, width=60)
     else:
@@ -121,12 +152,12 @@ def observe(seqs, names, via, gapfrac, gap_seed):
         else:
             text = formats.write_clustal(names, rows)
     fp = wd.write(text.encode("latin-1"), ".in")
-    pr = runner.run_probe(["read 0 1 %s" % fp, "dump 0", "free 0"])
-    if pr.ended.bad or pr.ended.rc != 0 or not pr.steps or len(pr.steps) < 2:
+    pr = runner.run_probe(pre + ["read 0 1 %s" % fp, "dump 0", "free 0"])
+    if pr.ended.bad or pr.ended.rc != 0 or not pr.steps or len(pr.steps) < len(pre) + 2:
         raise kal.Failure(pr.ended, "kalign_read_input")
-    if pr.steps[0]["rc"] != 0 or pr.steps[1].get("msa") is None:
-        raise kal.Rejected("read failed", {"rc": pr.steps[0]["rc"]})
-    m = pr.steps[1]["msa"]
+    if pr.steps[len(pre)]["rc"] != 0 or pr.steps[len(pre) + 1].get("msa") is None:
+        raise kal.Rejected("read failed", {"rc": pr.steps[len(pre)]["rc"]})
+    m = pr.steps[len(pre) + 1]["msa"]
     got = [q["seq"] for q in m["seqs"]]
     if got != list(seqs):
         raise kal.Rejected("reader returned different residues (C04/C06 territory)", {"n": len(got)})
@@ -160,8 +191,10 @@ def check(case):
         cl.append("gapped>=%.2f" % case["gapfrac"])
     if len(seqs) > 512:
         cl.append("records>512")
+    if case.get("history"):
+        cl.append("after_earlier_calls")
     try:
-        b1 = observe(seqs, case["names"], case["via"], case["gapfrac"], case["gap_seed"])
+        b1 = observe(seqs, case["names"], case["via"], case["gapfrac"], case["gap_seed"], case.get("history"))
         rnd = random.Random(case["perm_seed"])
         idx = list(range(len(seqs)))
         rnd.shuffle(idx)
